@@ -27,6 +27,7 @@ func runC15(c *an.Ctx) {
 	r15e(c)
 	r15f(c)
 	r15g(c)
+	r15h(c)
 }
 
 var c15Funcs = []struct{ pkg, name, role string }{
@@ -718,4 +719,108 @@ func r15g(c *an.Ctx) {
 	sort.Strings(bad)
 	c.Ob("(*core/workflow.includeRole).ProcessTemplates|only-place-restored", replace.Pos(), len(bad) == 0,
 		"after the include role's base was replaced by the included workflow's root, declarations of that root are overwritten (%v): e.g. with Enabled restored from the include role, a sub-workflow whose own enabled expression evaluates to false is kept with its subtree", bad)
+}
+
+// resolvesOnlyTo: every value v can hold (through phis and local cells) satisfies leaf.
+func resolvesOnlyTo(v ssa.Value, leaf func(ssa.Value) bool) bool {
+	seen := map[ssa.Value]bool{}
+	var walk func(v ssa.Value, depth int) bool
+	walk = func(v ssa.Value, depth int) bool {
+		if v == nil || depth > 8 {
+			return false
+		}
+		if seen[v] {
+			return true
+		}
+		seen[v] = true
+		if leaf(v) {
+			return true
+		}
+		switch x := v.(type) {
+		case *ssa.Phi:
+			for _, e := range x.Edges {
+				if !walk(e, depth+1) {
+					return false
+				}
+			}
+			return len(x.Edges) > 0
+		case *ssa.UnOp:
+			if al, ok := x.X.(*ssa.Alloc); ok && x.Op == token.MUL && al.Referrers() != nil {
+				n := 0
+				for _, r := range *al.Referrers() {
+					if st, isSt := r.(*ssa.Store); isSt && st.Addr == ssa.Value(al) {
+						// the zero value stored at declaration does not count
+						if an.IsNilConst(st.Val) {
+							continue
+						}
+						n++
+						if !walk(st.Val, depth+1) {
+							return false
+						}
+					}
+				}
+				return n > 0
+			}
+			// a field of a local record: the stores into that field of that record
+			if fa, ok := x.X.(*ssa.FieldAddr); ok && x.Op == token.MUL {
+				if al, isAl := fa.X.(*ssa.Alloc); isAl && al.Referrers() != nil {
+					n := 0
+					for _, r := range *al.Referrers() {
+						fa2, isFA := r.(*ssa.FieldAddr)
+						if !isFA || fa2.Field != fa.Field || fa2.Referrers() == nil {
+							continue
+						}
+						for _, rr := range *fa2.Referrers() {
+							if st, isSt := rr.(*ssa.Store); isSt && st.Addr == ssa.Value(fa2) {
+								n++
+								if !walk(st.Val, depth+1) {
+									return false
+								}
+							}
+						}
+					}
+					return n > 0
+				}
+			}
+		case *ssa.ChangeType:
+			return walk(x.X, depth+1)
+		}
+		return false
+	}
+	return walk(v, 0)
+}
+
+// R15h: "a template error fails the load" rests on the strictness of compilation: an expression naming a variable
+// that is not in scope for *this* role is rejected by expr.Compile against this role's environment - at run time a
+// missing key is just nil. Every program that is run must therefore have been compiled in the same evaluation; a
+// program remembered from another role's compilation skips the check and makes the result depend on history.
+func r15h(c *an.Ctx) {
+	c.Rule("R15h", "template.Fields.Execute: every expression program that is run was compiled (against the current environment) in this evaluation", 1)
+	fn := c.MustFn("configuration/template", "Fields.Execute")
+	if fn == nil {
+		return
+	}
+	n := 0
+	for _, f := range an.WithAnon(fn) {
+		for _, ci := range an.Calls(f, func(nm string, _ ssa.CallInstruction) bool {
+			return strings.HasSuffix(nm, "expr-lang/expr.Run") || strings.HasSuffix(nm, "/expr.Run")
+		}) {
+			n++
+			c.Subject()
+			prog := ci.Common().Args[0]
+			ok := resolvesOnlyTo(prog, func(v ssa.Value) bool {
+				ex, isEx := v.(*ssa.Extract)
+				if !isEx || ex.Index != 0 {
+					return false
+				}
+				call, isCall := ex.Tuple.(*ssa.Call)
+				return isCall && strings.HasSuffix(an.CalleeName(&call.Call), "expr.Compile")
+			})
+			c.Ob(fmt.Sprintf("configuration/template.Fields.Execute|run#%d|compiled-here", n), ci.Pos(), ok,
+				"the program handed to expr.Run does not always come from an expr.Compile of this evaluation (e.g. it is taken from a cache keyed by the expression text): the strict check of the expression against this role's variables is skipped, an out-of-scope variable evaluates to <nil> instead of failing the load, and whether it does depends on what was compiled before")
+		}
+	}
+	if n == 0 {
+		c.Lost("expr.Run in template.Fields.Execute")
+	}
 }
